@@ -181,6 +181,15 @@ def run(tier, seed):
             if not same:
                 chk.violation(f"input form {k} gives another outcome than the dict form ({label})", f"forms {k} {label.split('+')[0]}",
                               {"entry": "verify_authentication_response", "label": label, "outcomes": {x: y[:100] for x, y in outs.items()}, "policy": pol.describe(), "credential": d0})
+        eqs = impl.equivalent_auth_calls(pol, a)
+        for j, (nm, thunk) in enumerate(eqs):
+            if not (base.startswith("OK") or j % len(eqs) in (n_case % len(eqs), (n_case + 5) % len(eqs))):
+                continue
+            o2 = thunk()
+            chk.evals += 1
+            if o2 != base and not (o2.startswith("ERR") and base.startswith("ERR") and a.typ != "public-key"):
+                chk.violation(f"the same call with {nm} gives another outcome ({label}): {o2[:50]} instead of {base[:50]}", f"argument-shape auth {nm} {label.split('+')[0]}",
+                              {"entry": "verify_authentication_response", "label": label, "argument_shape": nm, "outcome": o2[:200], "reference": base[:200], "policy": pol.describe(), "credential": d0})
         if n_case % 3 == 0 or label.startswith("baseline"):
             for tname, kw2 in retyped(pol.kwargs()).items():
                 o2 = impl.outcome(lambda: webauthn.verify_authentication_response(credential=copy.deepcopy(d0), **kw2), impl.pr_verified_auth)
@@ -254,6 +263,16 @@ def run(tier, seed):
             if not same:
                 chk.violation(f"input form {k} gives another outcome than the dict form ({label})", f"forms-reg {k} {label.split('+')[0].split('/')[0]}",
                               {"entry": "verify_registration_response", "label": label, "outcomes": {x: y[:100] for x, y in outs.items()}, "policy": pol.describe(), "credential": d0})
+        eqs = impl.equivalent_reg_calls(pol, reg)
+        hsh = zlib.crc32(label.encode())
+        for j, (nm, thunk) in enumerate(eqs):
+            if not (base.startswith("OK") or j in (hsh % len(eqs), (hsh + 5) % len(eqs))):
+                continue
+            o2 = thunk()
+            chk.evals += 1
+            if o2 != base and not (o2.startswith("ERR") and base.startswith("ERR") and reg.typ != "public-key"):
+                chk.violation(f"the same call with {nm} gives another outcome ({label}): {o2[:50]} instead of {base[:50]}", f"argument-shape reg {nm} {label.split('+')[0].split('/')[0]}",
+                              {"entry": "verify_registration_response", "label": label, "argument_shape": nm, "outcome": o2[:200], "reference": base[:200], "policy": pol.describe(), "credential": d0})
         if zlib.crc32(label.encode()) % 3 == 0 or label.startswith("baseline"):
             for tname, kw2 in retyped(pol.kwargs()).items():
                 with impl.substituted(pol.substitute, pol.now):
